@@ -510,6 +510,9 @@ func checkC06(c *Ctx) {
 				if a.Pend != "none" || in.name != "NOP" {
 					nt++
 				}
+				if d == nil && (n == 1 || (a.Pend != "none" && a.Depth > 0 && si%97 == 11 && pi == 3 && ii == 7)) {
+					c.Sample(map[string]interface{}{"edge": c06Edge{State: *a, Instr: in.label, PC: p.PC, SP: p.SP, I: p.I, Vec: p.Vec, IM0: hexBytes(p.IM0), Halt: p.HaltFlag, Salt: c.Salt}, "post_state": stateMap(func() *refz80.State { s := fromCPU(&r.w.cpu); return &s }())})
+				}
 				if d != nil {
 					key := fmt.Sprintf("c06/edge:%s/IM%d/%s", a.Pend, a.IM, in.name)
 					if sig == "" && failedKeys[key] {
@@ -538,10 +541,6 @@ func checkC06(c *Ctx) {
 	// (3) notifications at no other time
 	c06Notifications(c)
 	c.Exhaustive = true
-	c.Sample(c06Edge{State: g.states[g.init], Instr: "EI", PC: 0x0100, SP: 0x8000, I: 0x12, Vec: 0x40, IM0: "FF"})
-	if len(g.states) > 100 {
-		c.Sample(c06Edge{State: g.states[100], Instr: "RETN", PC: 0xFFFF, SP: 0x0001, I: 0xFF, Vec: 0xFE, IM0: "CD 34 12"})
-	}
 	c.Assume("EI: acceptance at the next Step or one instruction later are both model successors; RETI: IFF1 unchanged or copied from IFF2 (DESIGN §6)")
 	c.Assume("mode 0: only RST n and CALL nn are used as supplied instructions; the pushed return address may be PC or PC+len (the latter is C07's known finding)")
 	c.Assume("mode 2 with an odd vector, empty request data, IM outside 0..2 and unknown request types are outside this property (C12: totality)")
